@@ -42,6 +42,8 @@ LEMMAS = [
     'lemma(forward): exists X (q(X) and X < 0).',
     'lemma(backward): forall X Y (q(X) and q(Y) -> X = Y).',
     'lemma: forall X (u(X) -> q(X)).',
+    'lemma: forall X (p(X) -> not not X > n).',
+    'lemma(backward): not exists X (p(X) and not X > n) or n < 0.',
 ]
 DEFINITIONS = [
     'definition: forall X (d(X) <-> q(X) and X > 0).',
@@ -129,6 +131,10 @@ def generate(tier, seed):
                 seq = defs + entries
         outlines.append(('sequence', ' '.join(seq)))
     items = []
+    for fam, po in list(outlines):
+        if ' n)' in po or 'n <' in po or '> n' in po:
+            outlines.remove((fam, po))
+            items.append({'family': 'outline-' + fam, 'task': BASE_TASKS[1], 'outline': po, 'label': '%s + %s' % (BASE_TASKS[1][0], po[:160])})
     for fam, po in outlines:
         for t in (BASE_TASKS if tier == 'thorough' else BASE_TASKS[:3] if fam == 'single' else [rnd.choice(BASE_TASKS)]):
             items.append({'family': 'outline-' + fam, 'task': t, 'outline': po, 'label': '%s + %s' % (t[0], po[:160])})
